@@ -18,8 +18,8 @@ import (
 )
 
 type c08StrObs struct {
-	Out   string `json:"out"`   // hex of what AppendString wrote
-	Rune  int    `json:"rune"`  // utf8.DecodeRuneInString
+	Out   string `json:"out"`  // hex of what AppendString wrote
+	Rune  int    `json:"rune"` // utf8.DecodeRuneInString
 	Size  int    `json:"size"`
 	Valid bool   `json:"valid"` // encoding/json's opinion of the output
 }
